@@ -509,7 +509,21 @@ def setup():
     return 0
 
 
+def merge_known():
+    """known_findings.json is the concatenation of known_findings.d/*.json (done by hand via --manifest,
+    never at check time)."""
+    findings = []
+    for path in sorted(glob.glob(os.path.join(ROOT, "known_findings.d", "*.json"))):
+        findings += json.load(open(path))
+    with open(os.path.join(ROOT, "known_findings.json"), "w") as f:
+        json.dump({"_comment": "Committed; never written at run time (regenerated by hand with ./check --manifest from "
+                               "known_findings.d/). status=known entries print KNOWN-FINDING and do not fail the run; "
+                               "status=fixed entries suppress nothing (their witnesses are in corpus/ and must pass).",
+                   "findings": findings}, f, indent=1)
+
+
 def manifest():
+    merge_known()
     props = load_props()
     all_ids = [json.loads(l)["id"] for l in open(os.path.join(ROOT, "properties.jsonl"))]
     checks = []
